@@ -878,6 +878,33 @@ pub fn gen_pat(r: &mut Rng, field: usize) -> Pat {
         }
     };
     let mut p = Pat { start: r.chance(1, 6), items: vec![], end: r.chance(1, 8), valid: true };
+    if field != RF_PAYEE && r.chance(2, 5) {
+        // named groups inside a category / secondary_commodity pattern: the CSV adapter matches
+        // the field and drops the captures (only the payee matcher's groups set payee / code)
+        match r.below(6) {
+            0 => p.items.push(Item::Payee(Atom::Lit(word(r)))),
+            1 => p.items.push(Item::Code(Atom::Lit(word(r)))),
+            2 => {
+                // "^(?P<payee>.*)": any value of the field, the empty one too
+                p.start = true;
+                p.items.push(Item::Payee(Atom::Rest));
+            }
+            3 => {
+                p.items.push(Item::Code(Atom::Lit(word(r))));
+                p.items.push(Item::Payee(Atom::Rest));
+            }
+            4 => {
+                p.items.push(Item::Payee(Atom::Rest));
+                p.items.push(Item::Plain(Atom::Lit(word(r))));
+                p.items.push(Item::Code(Atom::Digits0));
+            }
+            _ => {
+                p.items.push(Item::Plain(Atom::Lit(word(r))));
+                p.items.push(Item::Code(Atom::Rest));
+            }
+        }
+        return p;
+    }
     match r.below(if field == RF_PAYEE { 10 } else { 3 }) {
         0 | 1 | 2 => p.items.push(Item::Plain(Atom::Lit(word(r)))),
         3 => p.items.push(Item::Payee(Atom::Lit(word(r)))),
